@@ -238,6 +238,43 @@ def stack_oracle(word, data, ctx, desc):
                  {"kind": "stack_spec"})
 
 
+def stack_header_call(word, data, ns, hdr, key_dtypes):
+    """stack with a header dict (several keys / dtypes).  Returns (flat observation, failure or None):
+    flat = ngroups :: per key the per-label sums (mean x fold, must be integers) ++ fold"""
+    from ibldsp import voltage
+    labels = sorted(set(word))
+    header = {"k%d" % i: np.array(v, dtype=dt) for i, (v, dt) in enumerate(zip(hdr, key_dtypes))}
+    keys = list(header.keys())
+    d = np.array(data, dtype=float).reshape(len(word), ns)
+    try:
+        st, hs = voltage.stack(d, np.array(word), header=dict(header))
+        st = as_array(st, (len(labels), ns), "stack", kinds="f")
+        if not isinstance(hs, dict) or sorted(hs.keys()) != sorted(keys + ["fold"]):
+            raise BadOutput("stack(header=...) returned %s, expected a dict with the header keys and 'fold'"
+                            % (sorted(hs.keys()) if isinstance(hs, dict) else type(hs).__name__))
+        fold = as_array(np.asarray(hs["fold"]), (len(labels),), "stack (fold)", kinds="iu")
+        flat = [len(labels)]
+        bad = None
+        for kname, v, dt in zip(keys, hdr, key_dtypes):
+            agg = as_array(np.asarray(hs[kname]), (len(labels),), "stack header %s" % kname, kinds="fiu").astype(float)
+            exact = [np.mean([v[i] for i, w in enumerate(word) if w == g]) for g in labels]
+            tol = (1e-5 if dt == "float32" else 1e-9) * (1 + max(abs(x) for x in v))     # float32 keys keep float32 means
+            if not np.allclose(agg, exact, rtol=0, atol=tol):
+                bad = "stack: aggregated header '%s' entry i is not the mean over the traces of the i-th smallest label " \
+                      "(got %s, expected %s)" % (kname, agg.tolist(), [float(e) for e in exact])
+            sums = agg * np.array([word.count(g) for g in labels], dtype=float)
+            flat += [int(round(float(x))) if np.isfinite(x) else -999999 for x in sums]
+        rows = np.array([d[[i for i, w in enumerate(word) if w == g], :].mean(axis=0) for g in labels])
+        if not np.allclose(st, rows, rtol=0, atol=1e-9 * (1 + np.abs(d).max())) or \
+                [int(f) for f in fold] != [word.count(g) for g in labels]:
+            bad = bad or "stack(header=...): rows / fold are not the per-label means / multiplicities"
+        return flat + [int(f) for f in fold], bad
+    except BadOutput as e:
+        return None, str(e)
+    except Exception as e:  # noqa
+        return None, "stack(header=...) raised %r" % (e,)
+
+
 def stack_int_call(word, data, dtype):
     """default aggregate (nanmean) on integer-typed traces: the result keeps the integer dtype"""
     from ibldsp import voltage
@@ -748,6 +785,50 @@ def _run(ctx):
         if len(set(case["word"])) > 1 and len(set(case["word"])) < len(case["word"]):
             nontrivial.add(("stack", tuple(case["word"]), tuple(case["data"])))
     samples.append({"fn": "stack", "word": case["word"], "fold": res[-len(set(case["word"])):]})
+    # header dict: several keys (int64 / float64 / float32 / int32), labels first appearing in descending,
+    # interleaved, random and ascending order; other aggregates (np.sum, np.median, np.mean) once each
+    for k in range(160 if T else 48):
+        ntr = rng.choice([2, 3, 5, 8, 13])
+        ns = rng.choice([1, 2, 3])
+        nl = rng.choice([2, 3, min(4, ntr)])
+        pool = sorted(rng.sample(range(-5, 40), nl))
+        order = k % 4
+        if order == 0:
+            word = sorted((rng.choice(pool) for _ in range(ntr)), reverse=True)          # descending
+        elif order == 1:
+            word = [pool[::-1][i % nl] for i in range(ntr)]                               # interleaved, largest first
+        elif order == 2:
+            word = [rng.choice(pool) for _ in range(ntr)]                                 # random
+        else:
+            word = sorted(rng.choice(pool) for _ in range(ntr))                           # ascending (control)
+        nkeys = rng.choice([1, 2, 3])
+        hdr = [[rng.randrange(-20, 21) for _ in range(ntr)] for _ in range(nkeys)]
+        kd = [["int64", "float64", "float32", "int32"][(k + j) % 4] for j in range(nkeys)]
+        data = [rng.randrange(-50, 51) for _ in range(ntr * ns)]
+        desc = {"fn": "stack(header)", "word": word, "ns": ns, "data": data, "header": hdr, "key_dtypes": kd}
+        flat, bad = stack_header_call(word, data, ns, hdr, kd)
+        count("stack_header_cases")
+        count("stack_header_first_appearance_not_ascending",
+              [g for i, g in enumerate(word) if g not in word[:i]] != sorted(set(word)))
+        if bad:
+            ctx.fail(bad, desc, {"kind": "stack_header"})
+        if flat is not None:
+            add([10, ntr, nkeys] + word + [v for h in hdr for v in h], flat, desc)
+            nontrivial.add(("stack_header", tuple(word), tuple(map(tuple, hdr))))
+    from ibldsp import voltage as _v
+    for agg, ref in ((np.sum, np.sum), (np.median, np.median), (np.mean, np.mean), (np.nanmax, np.max)):
+        word = [4, 1, 4, 2, 1, 4]
+        d = np.array([[rng.randrange(-9, 10) for _ in range(3)] for _ in word], dtype=float)
+        desc = {"fn": "stack", "word": word, "fcn_agg": agg.__name__, "data": d.tolist()}
+        try:
+            st, fold = _v.stack(d.copy(), np.array(word), fcn_agg=agg)
+            st = as_array(st, (3, 3), "stack", kinds="f")
+            exp = np.array([ref(d[[i for i, w in enumerate(word) if w == g], :], axis=0) for g in (1, 2, 4)])
+            if not np.allclose(st, exp, atol=1e-12) or [int(f) for f in fold] != [2, 1, 3]:
+                ctx.fail("stack(fcn_agg=%s): rows are not the per-label aggregates" % agg.__name__, desc, {"kind": "stack_spec"})
+        except Exception as e:  # noqa
+            ctx.fail("stack(fcn_agg=%s): %s" % (agg.__name__, e if isinstance(e, BadOutput) else repr(e)), desc,
+                     {"kind": "stack_exception"})
 
     lap("stack")
     # ---------------- rolling_window ----------------
@@ -815,6 +896,37 @@ def _run(ctx):
     meas["rolling_values_vs_model_max_abs_err"] = worst
     samples.append({"fn": "rolling_window", "n": 8, "window_len": 3, "taps_of_outputs": ex.run_many([[7, 8, 3]])[0][2:]})
 
+    # parameters otherwise left at their defaults / other accepted argument kinds
+    for wn in WINDOWS:
+        xl = [float(rng.randrange(-9, 10)) for _ in range(17)]
+        desc = {"fn": "rolling_window", "n": 17, "window_len": 5, "window": wn, "x_is_list": True}
+        try:
+            a = smooth.rolling_window(list(xl), window_len=5, window=wn)
+            b = smooth.rolling_window(np.array(xl), window_len=5, window=wn)
+            if not (isinstance(a, np.ndarray) and a.shape == (17,) and np.array_equal(a, b)):
+                ctx.fail("rolling_window on a Python list differs from the same data as an array", desc,
+                         {"kind": "rolling_list"})
+        except Exception as e:  # noqa
+            ctx.fail("rolling_window on a Python list raised %r" % (e,), desc, {"kind": "rolling_exception"})
+    dflt = smooth.rolling_window(np.arange(30.0) ** 2)
+    if not np.array_equal(dflt, smooth.rolling_window(np.arange(30.0) ** 2, window_len=11, window="blackman")):
+        ctx.fail("rolling_window defaults are not window_len=11, window='blackman'", {"fn": "rolling_window", "defaults": True},
+                 {"kind": "rolling_defaults"})
+    for bad_call, exc in ((lambda: smooth.rolling_window(np.ones(20), 5, "boxcar"), ValueError),
+                          (lambda: smooth.rolling_window(np.ones((4, 5)), 3, "flat"), ValueError),
+                          (lambda: smooth.non_uniform_savgol(np.arange(9.), np.arange(9.), 5.0, 2), TypeError),
+                          (lambda: smooth.non_uniform_savgol(np.arange(9.), np.arange(9.), 5, 2.0), TypeError),
+                          (lambda: smooth.non_uniform_savgol(np.arange(9.), np.arange(8.), 5, 2), ValueError)):
+        count("documented_error_cases")
+        try:
+            bad_call()
+            ctx.disagree("a documented argument error is no longer raised (%s expected)" % exc.__name__,
+                         {"fn": "argument checks"})
+        except exc:
+            pass
+        except Exception as e:  # noqa
+            ctx.disagree("a documented argument error changed type: %r instead of %s" % (e, exc.__name__),
+                         {"fn": "argument checks"})
     lap("rolling")
     # ---------------- lp ----------------
     pads = [0.2, 0.2, 0.1, 0.25, 0.5, 1.0, 0.05, 0.3, 0.7, 1e-6, 0.0] + [rng.random() for _ in range(6)]
@@ -1019,6 +1131,22 @@ def _run(ctx):
                 ctx.fail("smooth_interpolate_savgol does not reproduce a straight line through NaN gaps (%g)" % err,
                          desc, {"kind": "savgol_nan_linear"})
 
+    # interp_kind other than the default, straight line through NaN gaps and ends
+    for kind_ in ("linear", "quadratic", "cubic", "slinear"):
+        n = 60
+        line = 0.5 * np.arange(n) + 2.0
+        sig = line.copy()
+        sig[[0, 1, 7, 8, 30, 58, 59]] = np.nan
+        desc = {"fn": "smooth_interpolate_savgol", "n": n, "nan_positions": [0, 1, 7, 8, 30, 58, 59], "window": 7, "order": 2,
+                "interp_kind": kind_, "signal": [None if np.isnan(v) else float(v) for v in sig]}
+        try:
+            out = smooth.smooth_interpolate_savgol(sig.copy(), window=7, order=2, interp_kind=kind_)
+            if not (isinstance(out, np.ndarray) and out.shape == (n,) and np.all(np.isfinite(out))
+                    and np.max(np.abs(out - line)) < 1e-6):
+                ctx.fail("smooth_interpolate_savgol(interp_kind=%s) does not fill the gaps of a straight line with the line"
+                         % kind_, desc, {"kind": "savgol_nan_linear"})
+        except Exception as e:  # noqa
+            ctx.fail("smooth_interpolate_savgol(interp_kind=%s) raised %r" % (kind_, e), desc, {"kind": "savgol_nan_exception"})
     lap("savgol")
     # ---------------- cadzow / svd ----------------
     all_layouts = layouts(ctx)
@@ -1057,6 +1185,31 @@ def _run(ctx):
             ctx.fail("cadzow.denoise(rank 1) does not reduce noise added to a plane wave (median residual/noise = %g)"
                      % float(np.median(r)), {"fn": "cadzow.denoise", "measurement": "noise ratio"},
                      {"kind": "cadzow_noise"})
+    # cadzow.derank / traj_matrix_indices called directly
+    from ibldsp import cadzow as _c
+    g_ = np.random.default_rng(rng.randrange(2 ** 31))
+    for shape_ in ((3, 2), (6, 4), (9, 8), (5, 5)):
+        Tm = g_.standard_normal(shape_) + 1j * g_.standard_normal(shape_)
+        desc = {"fn": "cadzow.derank", "shape": list(shape_)}
+        try:
+            full_ = as_array(_c.derank(Tm.copy(), min(shape_)), shape_, "cadzow.derank", kinds="c")
+            one_ = as_array(_c.derank(np.outer(Tm[:, 0], Tm[0, :]), 1), shape_, "cadzow.derank", kinds="c")
+            if not (np.allclose(full_, Tm, atol=1e-10) and np.allclose(one_, np.outer(Tm[:, 0], Tm[0, :]), atol=1e-10)):
+                ctx.fail("cadzow.derank does not return a matrix whose rank is not above the requested one", desc,
+                         {"kind": "cadzow_derank"})
+        except Exception as e:  # noqa
+            ctx.fail("cadzow.derank: %s" % (e if isinstance(e, BadOutput) else repr(e)), desc, {"kind": "cadzow_exception"})
+    tmi_model = ex.run_many([[6, n_] + [0] * n_ + list(range(n_)) for n_ in range(1, 41)])
+    for n_, mo in zip(range(1, 41), tmi_model):
+        desc = {"fn": "cadzow.traj_matrix_indices", "n": n_}
+        try:
+            it_ = as_array(np.asarray(_c.traj_matrix_indices(n_)), (n_ // 2 + 1, -(-n_ // 2)), "traj_matrix_indices", kinds="iu")
+            # a single column of n_ rows: the block trajectory matrix IS the 1-D index matrix
+            if [int(v) for v in it_.flatten()] != mo[3:3 + mo[2]] or sorted(set(it_.flatten().tolist())) != list(range(n_)):
+                ctx.fail("traj_matrix_indices(%d) does not hold every index 0..n-1 in Toeplitz order" % n_, desc,
+                         {"kind": "cadzow_traj_indices"})
+        except Exception as e:  # noqa
+            ctx.fail("traj_matrix_indices: %s" % (e if isinstance(e, BadOutput) else repr(e)), desc, {"kind": "cadzow_exception"})
     svd_oracle(ctx, meas)
     for k in range(200 if T else 60):
         nc = rng.choice([1, 2, 3, 4, 5, 7, 8, 12, 16, 31])
@@ -1170,6 +1323,18 @@ def replay(ctx, data):
             bad += venn_oracle(case, res)
             if model != [1, len(res)] + res:
                 bad.append("model differs")
+    elif fn == "stack(header)":
+        flat, why = stack_header_call(inp["word"], inp["data"], inp["ns"], inp["header"], inp["key_dtypes"])
+        model = common.Extracted(PROP).run_many([[10, len(inp["word"]), len(inp["header"])] + inp["word"]
+                                                 + [v for h in inp["header"] for v in h]])[0]
+        print("implementation (per-label header sums, fold):", flat, "\nmodel:", model)
+        if why:
+            bad.append(why)
+        if flat != model:
+            bad.append("model differs")
+    elif fn == "stack" and "fcn_agg" in inp:
+        print("see the recorded description:", json.dumps(inp)[:500])
+        bad.append("aggregate check: rerun the check to reproduce")
     elif fn == "stack":
         res = stack_call(inp["word"], inp["data"])
         model = common.Extracted(PROP).run_many([[2, len(inp["word"]), inp["ns"]] + inp["word"] + inp["data"]])[0]
